@@ -407,20 +407,26 @@ def custom_table_correspondence(run):
     import re
     rng = run.rng
     cases, meta = [], []
+    import concurrent.futures
+    built_engines = []
     for spec in TABLE_SPECS:
-        label = spec[0]
         try:
             f, eng = build_table_engine(spec)
+            built_engines.append((spec, f, eng, oplist_term(f.operators)))
         except Exception as e:
-            run.fail("mismatch", "a customised engine of the correspondence could not be built", {"engine": label, "error": repr(e)})
-            continue
-        ops = oplist_term(f.operators)
-        # rule order
+            run.fail("mismatch", "a customised engine of the correspondence could not be built", {"engine": spec[0], "error": repr(e)})
+
+    def order_of(ops):
         try:
             txt = run.coq_eval(TABLE_HEADER, "rule_order %s" % ops)
-            model_order = ["".join(chr(int(x)) for x in m.split(";")) for m in re.findall(r"\[([0-9; \n]+)\]", txt.split("Some", 1)[-1])]
+            return ["".join(chr(int(x)) for x in m.split(";")) for m in re.findall(r"\[([0-9; \n]+)\]", txt.split("Some", 1)[-1])]
         except Exception as e:
-            model_order = ["<model failed: %r>" % e]
+            return ["<model failed: %r>" % e]
+
+    with concurrent.futures.ThreadPoolExecutor(max_workers=8) as ex:
+        orders = list(ex.map(order_of, [b[3] for b in built_engines]))
+    for (spec, f, eng, ops), model_order in zip(built_engines, orders):
+        label = spec[0]
         live = live_rule_order(eng)
         run.case(("rule-order", label), nontrivial=True)
         run.count("table:rule-order:" + ("same" if live == model_order else "different"))
